@@ -1003,6 +1003,11 @@ impl FromStr for Duration {
             .parse()
             .map_err(|e| TemporalError::range().with_message(format!("{e}")))?;
 
+        // A duration string designates at least one component: "P" alone is not a duration.
+        if parse_record.date.is_none() && parse_record.time.is_none() {
+            return Err(TemporalError::range().with_message("Duration string has no components."));
+        }
+
         let (hours, minutes, seconds, millis, micros, nanos) = match parse_record.time {
             Some(TimeDurationRecord::Hours { hours, fraction }) => {
                 let unadjusted_fraction =
